@@ -52,6 +52,26 @@ class VetoFSM(edzed.FSM):
         self.sdata['veto'] = bool(value)
 
 
+class TaintProbe(edzed.AddonPersistence, edzed.SBlock):
+    """a block whose 'taint' handler changes the internal state and then fails"""
+    def get_state(self):
+        return self.output
+
+    def _restore_state(self, state):
+        self.set_output(state)
+
+    def init_regular(self):
+        if not self.is_initialized():
+            self.set_output(0)
+
+    def _event_put(self, *, value, **_data):
+        self.set_output(value)
+
+    def _event_taint(self, **_data):
+        self.set_output(666)
+        raise RuntimeError('handler failed after changing the state')
+
+
 def make_block(spec, dest=None):
     kind = spec['kind']
     kw = dict(persistent=spec['persistent'], sync_state=spec['sync'], expiration=EXP[spec['exp']][0])
@@ -70,6 +90,8 @@ def make_block(spec, dest=None):
                               on_enter_expired=edzed.Event(dest, 'entered'), **kw)
     if kind == 'timedate':
         return edzed.TimeDate(name, times='1:00-2:00', utc=True, **kw)
+    if kind == 'tprobe':
+        return TaintProbe(name, **kw)
     if kind == 'vetofsm':
         return VetoFSM(name, on_enter_open=edzed.Event(dest, 'entered'),
                        on_enter_closing=edzed.Event(dest, 'entered'), **kw)
@@ -78,7 +100,7 @@ def make_block(spec, dest=None):
 
 def key_of(spec):
     cls = {'input': 'Input', 'counter': 'Counter', 'timer': 'Timer', 'inputexp': 'InputExp',
-           'timedate': 'TimeDate', 'vetofsm': 'VetoFSM'}[spec['kind']]
+           'timedate': 'TimeDate', 'vetofsm': 'VetoFSM', 'tprobe': 'TaintProbe'}[spec['kind']]
     return f"<{cls} '{spec['name']}'>"
 
 
@@ -193,9 +215,11 @@ class C06(common.Spec):
                 instrument(bi, blk)
             for t_us, bi, etype, data in case['events']:
                 delay = t_us / 1e6 - loop.time()
+                if circuit.error is not None and delay > 0:
+                    break                # the simulation has failed; events of the SAME instant still arrive
                 if delay > 0:
                     await asyncio.sleep(delay)
-                if circuit.error is not None:
+                if circuit.error is not None and delay > 0:
                     break
                 try:
                     blocks[bi].event(etype, **data)
@@ -382,7 +406,7 @@ class C06(common.Spec):
 
 
 def gen_case(rng):
-    kinds = ['input', 'counter', 'timer', 'inputexp', 'timedate', 'vetofsm']
+    kinds = ['input', 'counter', 'timer', 'inputexp', 'timedate', 'vetofsm', 'tprobe', 'tprobe']
     blocks = []
     for i in range(rng.randrange(1, 5)):
         kind = rng.choice(kinds)
@@ -412,9 +436,19 @@ def gen_case(rng):
         elif kind == 'vetofsm':
             ev = rng.choice([['close', {}], ['close', {}], ['setveto', {'value': True}], ['setveto', {'value': True}],
                              ['setveto', {'value': False}], ['done', {}]])
+        elif kind == 'tprobe':
+            ev = rng.choice([['put', {'value': rng.randrange(1, 9)}], ['put', {'value': rng.randrange(1, 9)}],
+                             ['taint', {}]])
         else:
             ev = ['reconfig', rng.choice([{'times': '3:00-4:00'}, {'weekdays': '135'}, {}])]
         events.append([t, bi, ev[0], ev[1]])
+        if (ev[0] == 'taint' or ev[1].get('value') == 'boom') and rng.random() < 0.6:
+            # a second handler failure in the same instant, while the simulation is already stopping
+            others = [j for j, b in enumerate(blocks) if j != bi and b['kind'] in ('tprobe', 'counter')]
+            if others:
+                bj = rng.choice(others)
+                events.append([t, bj, 'taint', {}] if blocks[bj]['kind'] == 'tprobe'
+                              else [t, bj, 'put', {'value': 'boom'}])
     extra = {}
     if rng.random() < 0.5:
         extra["<Input 'gone'>"] = 5
